@@ -206,7 +206,28 @@ fn case_fn_mode(case: &mut Case, c12_mode: bool) -> CaseResult {
     // fragments (and some operations) are distributed over up to four files connected by #import lines
     // (chains, diamonds, cycles; by name or wildcard); the file under test is the main one
     let fsplit = vh::split::split_into_files(&mut case.ch, &doc);
-    let files: Vec<(String, MOpDoc, String)> = fsplit.files.iter().map(|(rel, m)| (format!("/p/{rel}"), m.clone(), canon_op(m))).collect();
+    // a third of the projects are written with random legal trivia (block strings stay out: C07-block-string-raw)
+    let wild = case.ch.chance(1, 3);
+    if wild {
+        case.label("source-with-random-trivia");
+    }
+    let files: Vec<(String, MOpDoc, String)> = fsplit
+        .files
+        .iter()
+        .map(|(rel, m)| {
+            let text = if wild {
+                let mut r = RenderOpts::wild();
+                r.allow_cooked_block = false;
+                r.allow_block = false;
+                r.allow_surrogate_escape = false;
+                r.allow_shorthand = false;
+                render_op_doc(m, r, Some(&mut case.ch)).text
+            } else {
+                canon_op(m)
+            };
+            (format!("/p/{rel}"), m.clone(), text)
+        })
+        .collect();
     let split = files.len() > 1;
     let main_doc: MOpDoc = files[0].1.clone();
     let main_text = files[0].2.clone();
@@ -251,7 +272,15 @@ fn case_fn_mode(case: &mut Case, c12_mode: bool) -> CaseResult {
         let r1 = run_cli(&proj.dir, &["generate", "--output-format", "json"]);
         // backdate nothing, change only the configuration
         proj.write("graphql.config.yaml", &if as_json { config_text(&opts, false) } else { cfg_text.clone() });
-        let r2 = run_cli(&proj.dir, &["generate", "--output-format", "json"]);
+        // half of the second runs also give the schema output on the command line (the same path as in the
+        // configuration): a documented way to start the command, which must not change any other option
+        let with_flag = case.ch.flip();
+        let r2 = if with_flag {
+            case.label("cli-with-schema-output-flag");
+            run_cli(&proj.dir, &["--schema-output", "./schema.d.ts", "generate", "--output-format", "json"])
+        } else {
+            run_cli(&proj.dir, &["generate", "--output-format", "json"])
+        };
         let decl = match opts.mode.unwrap_or("with-loader-ts-5.0") {
             "with-loader-ts-5.0" => "main.d.graphql.ts",
             "with-loader-ts-4.0" => "main.graphql.d.ts",
